@@ -153,10 +153,84 @@ def run_c05(ctx):
                 "(accept => re-encodes to the consumed bytes); hostile-length vectors are decoded one per process under an address-space limit. distinct = distinct (type, bytes)")
 
 
+def le_term_bytes(term):
+    out = b""
+    for p in term:
+        k = p[0]
+        if k == "b":
+            out += bytes(p[1])
+        elif k == "r":
+            out += bytes([p[1]]) * p[2]
+        elif k == "le64":
+            out += ((p[1] << 32) | p[2]).to_bytes(8, "little")
+        elif k == "le32":
+            out += p[1].to_bytes(4, "little")
+        elif k == "le16":
+            out += p[1].to_bytes(2, "little")
+        else:
+            raise ToolError("bad term part %r" % (p,))
+    return out
+
+
+def run_c16(ctx):
+    quick = ctx.tier == "quick"
+    # binary forms
+    r = ctx.tlc(SPEC, "ContractsCommon.tla", "ContractsCommon.cfg", workers=4, timeout=900)
+    vecs = [json.loads(s) for s in r.replays]
+    derived = []
+    for v in vecs:
+        if v["expect"] == "accept":
+            data = le_term_bytes(v["bytes"])
+            n = len(data)
+            for c in sorted(set(list(range(0, min(n, 16))) + list(range(max(0, n - 4), n)))):
+                if c < n:
+                    derived.append({"ty": v["ty"], "bytes": [["b", list(data[:c])]], "expect": "reject", "class": "proper prefix (%d of %d bytes)" % (c, n), "json": 0})
+            derived.append({"ty": v["ty"], "bytes": [["b", list(data + b"\xab\xcd")]], "expect": "accept", "class": "trailing bytes", "json": v["json"], "consumed": n})
+            step = max(1, (8 * n) // (48 if quick else 512))
+            for bit in range(0, 8 * n, step):
+                m = bytearray(data)
+                m[bit // 8] ^= 1 << (bit % 8)
+                derived.append({"ty": v["ty"], "bytes": [["b", list(m)]], "expect": "any", "class": "bit flip", "json": 0})
+    s1, _ = replay_behaviours(ctx, "base", "cc-replay", [json.dumps(v) for v in vecs + derived], "cc")
+    # text forms, validators, checked arithmetic
+    r = ctx.tlc(SPEC, "TextForms.tla", "TextForms.cfg", workers=4, timeout=900)
+    ctx.exhaustive = True
+    s2, _ = replay_behaviours(ctx, "base", "text-replay", r.replays, "text")
+    ctx.extra["binary_vector_histogram"] = s1["by_action"]
+    ctx.extra["text_vector_histogram"] = s2["by_action"]
+    h = s2["by_action"]
+    if h.get("amount", 0) < 1000 or h.get("contract_name:true", 0) < 5 or h.get("receive_name:false", 0) < 50 or h.get("timestamp", 0) < 50 or h.get("checked_add", 0) < 30:
+        raise ToolError("vacuous text run: %s" % h)
+    if s1["by_action"].get("SetU8Ordered:reject", 0) < 2 or s1["by_action"].get("bool:reject", 0) < 1:
+        raise ToolError("vacuous binary run")
+    # canary
+    t = json.loads(next(x for x in r.replays if '"amount"' in x and '"ok":true' in x))
+    t["micro"] = (t["micro"] + 1) % 1000000
+    inp = os.path.join(ctx.work, "canary.ndjson")
+    outp = os.path.join(ctx.work, "canary.res")
+    write_ndjson(inp, [t])
+    ctx.harness("base", ["text-replay", inp, outp])
+    if not [x for x in read_ndjson(outp) if not x.get("summary")]:
+        raise ToolError("canary: altered amount value not flagged")
+    ctx.extra["canary"] = "altered expected amount value flagged"
+    ctx.samples = [{"kind": "binary vector", "vector": vecs[0]}, {"kind": "text vector", "vector": json.loads(r.replays[len(r.replays) // 2])}]
+    ctx.assumptions += [
+        "duration strings whose components overflow u64 are outside the claim (DESIGN O4); account addresses (base58) are opaque",
+        "the default BTreeSet/BTreeMap readers are documented to reject duplicates only; order is required only from the order-checking readers (deserial_set_no_length / deserial_map_no_length)",
+        "allocation bound for the contract-side decoders: 64 KiB + 64 x input length",
+    ]
+    ctx.rule = ("binary: ContractsCommon.tla vectors (canonical encodings with decoded values; undefined tags, duplicates, unordered input, invalid UTF-8, invalid names, zero rates, hostile lengths) "
+                "plus prefixes, trailing bytes and bit flips derived from every canonical vector; text: every string over {0,1,9,.,a} up to length 5 classified by the Amount grammar with its value, "
+                "name validators on 16 bodies x 13 paddings around the 100-byte limit, timestamps at calendar boundaries (RFC 3339 <-> ms, offsets, year 9999/10000, 2^63, u64::MAX), "
+                "durations, contract addresses, checked add/sub/duration_since on symbolic u64 values. distinct = distinct vectors")
+
+
 def run(ctx):
     ctx.build("base")
     if ctx.prop == "C05":
         return run_c05(ctx)
+    if ctx.prop == "C16":
+        return run_c16(ctx)
     raise ToolError("no check for %s" % ctx.prop)
 
 
